@@ -20,6 +20,19 @@ ROUTE = 'clastic.route'
 _UNDECIDED = object()
 
 
+def run_group(rep, fn, *args, **kw):
+    """Run one group of rules.  "Could not analyse" (AnalysisError, or an unexpected exception inside the rule code) is
+    recorded as an analysis gap of this group; the other groups still run and report."""
+    try:
+        return fn(*args, **kw)
+    except AnalysisError as e:
+        rep.gaps.append('%s: %s' % (getattr(fn, '__name__', 'rule group'), e))
+    except Exception:
+        import traceback
+        rep.gaps.append('%s: internal error in checker: %s' % (getattr(fn, '__name__', 'rule group'), traceback.format_exc()[-400:]))
+    return None
+
+
 def none_test(t, name):
     """``name is None`` / ``None is name`` / ``name == None`` -> 'is'; the negated comparisons -> 'isnot'; else None."""
     if isinstance(t, ast.Compare) and len(t.ops) == 1:
